@@ -131,6 +131,19 @@ def any_tree(draw, cfg, max_depth=4):
 # ------------------------------------------------------------------------------------------------
 # shape templates: the idioms users write and that rewriters key on, all constants/widths generated.
 
+TEMPLATE_NAMES = (
+    "nested_shift", "mask_xor_cmp", "xor1_cmp", "ext_cmp", "extract_ext_cmp", "if10", "if10_and", "bswap_mix",
+    "addsub_chain", "conj_eqne", "rot_mask", "minmax", "and_mask_cmp", "shift_of_ext", "extract_nest",
+    "concat_extracts", "if_cmp", "not_cmp", "flatten", "sub_self", "extract_distrib", "if_nested", "uge_ne",
+    "zext_zext", "reverse_pair", "concat_mask",
+)
+
+
+def templates_each(cfg):
+    """[(name, strategy)] -- one strategy per template, so that coverage of templates is uniform by construction
+    (Hypothesis' sampled_from is deliberately non-uniform)."""
+    return [(nm, template_named({**cfg, "templates": [nm]})) for nm in TEMPLATE_NAMES]
+
 
 def _c(v, n):
     return ("const", v & ((1 << n) - 1), n)
@@ -138,6 +151,21 @@ def _c(v, n):
 
 @st.composite
 def template(draw, cfg):
+    return draw(template_named(cfg))[1]
+
+
+@st.composite
+def template_named(draw, cfg):
+    name, tree = _template(draw, cfg)
+    return (name, tree)
+
+
+def _template(draw, cfg):
+    name, tree = _template_inner(draw, cfg)
+    return name, tree
+
+
+def _template_inner(draw, cfg):
     n = draw(st.sampled_from(cfg["widths"]))
     m = (1 << n) - 1
     cv = lambda: draw(consts(n))  # noqa: E731
@@ -146,15 +174,20 @@ def template(draw, cfg):
     c = draw(bool_tree(1, cfg))
     cmp_ = lambda: draw(st.sampled_from(ir.BV_CMP))  # noqa: E731
     eqne = lambda: draw(st.sampled_from(("eq", "ne")))  # noqa: E731
-    names = [
+    names = list(TEMPLATE_NAMES)
+    _unused = [
         "nested_shift", "mask_xor_cmp", "xor1_cmp", "ext_cmp", "extract_ext_cmp", "if10", "if10_and", "bswap_mix",
         "addsub_chain", "conj_eqne", "rot_mask", "minmax", "and_mask_cmp", "shift_of_ext", "extract_nest",
         "concat_extracts", "if_cmp", "not_cmp", "flatten", "sub_self", "extract_distrib", "if_nested", "uge_ne",
-        "zext_zext", "reverse_pair",
+        "zext_zext", "reverse_pair", "concat_mask",
     ]
     if cfg.get("templates"):
         names = [x_ for x_ in names if x_ in cfg["templates"]]
     name = draw(st.sampled_from(names))
+    return name, _template_body(draw, cfg, name, n, m, cv, x, y, c, cmp_, eqne)
+
+
+def _template_body(draw, cfg, name, n, m, cv, x, y, c, cmp_, eqne):
     if name == "nested_shift":
         ops = ("bvshl", "bvlshr", "bvashr")
         o1, o2 = draw(st.sampled_from(ops)), draw(st.sampled_from(ops))
@@ -366,6 +399,26 @@ def template(draw, cfg):
         inner = draw(bv_vars(n - k1 - k2))
         o1, o2 = draw(st.sampled_from(("zext", "sext"))), draw(st.sampled_from(("zext", "sext")))
         return (o1, k1, (o2, k2, inner))
+    if name == "concat_mask":
+        if n < 3:
+            return ("bvand", x, cv())
+        parts_n = draw(st.sampled_from((2, 3, 3)))
+        ws = _split_widths(draw, n, parts_n)
+        parts = [draw(st.one_of(bv_vars(w), bv_vars(w), consts(w))) for w in ws]
+        cat = ("concat", *parts)
+        k = draw(st.sampled_from((n - ws[0], n - ws[0], n - ws[0], ws[-1], n - ws[0] - 1, n - ws[0] + 1, draw(st.integers(0, n)))))
+        k = max(0, min(n, k))
+        low = _c((1 << k) - 1, n)
+        msk = draw(st.sampled_from((low, low, low, low, _c(~((1 << k) - 1), n), cv())))
+        o = draw(st.sampled_from(("bvand", "bvand", "bvand", "bvand", "bvor", "bvxor")))
+        e = (o, cat, msk) if draw(st.integers(0, 3)) else (o, msk, cat)
+        kk = draw(st.integers(0, 5))
+        if kk == 0:
+            return (eqne(), e, cv())
+        if kk == 1:
+            hi = draw(st.integers(0, n - 1))
+            return ("extract", hi, draw(st.integers(0, hi)), e)
+        return e
     if name == "reverse_pair":
         nb = draw(st.sampled_from((8, 16, 32)))
         a = draw(bv_vars(nb, 2))
